@@ -15,7 +15,14 @@ def main():
         i = args.index("--tier"); tier = args[i+1]; del args[i:i+2]
     if "--seed" in args:
         i = args.index("--seed"); seed = args[i+1]; del args[i:i+2]
+    wt = None
+    if "--worktree" in args:
+        args.remove("--worktree")
+        wt = tempfile.mkdtemp(prefix="evalwt-", dir="/tmp")
+        os.rmdir(wt)
     patch, props = args[0], args[1:]
+    if wt:
+        return in_worktree(wt, patch, props, tier, seed)
     st = subprocess.run(["git", "-C", "/repo", "status", "--porcelain", "--untracked-files=no"], capture_output=True, text=True).stdout.strip()
     if st:
         print("refusing: /repo has local modifications:\n" + st); sys.exit(2)
@@ -41,6 +48,39 @@ def main():
     finally:
         subprocess.run(["git", "-C", "/repo", "checkout", "--", "."], check=True)
         shutil.rmtree(scratch, ignore_errors=True)
+
+def in_worktree(wt, patch, props, tier, seed):
+    """Same evaluation against a scratch worktree of /repo's HEAD (leaves /repo's working tree alone)."""
+    subprocess.run(["git", "-C", "/repo", "worktree", "add", "-q", "--detach", wt, "HEAD"], check=True)
+    scratch = tempfile.mkdtemp(prefix="evalmut-")
+    builddir = None
+    try:
+        r = subprocess.run(["git", "-C", wt, "apply", os.path.abspath(patch)], capture_output=True, text=True)
+        if r.returncode != 0:
+            print("patch does not apply:", r.stderr); sys.exit(2)
+        env = dict(os.environ, VERIF_REPO=wt, VERIF_EVIDENCE_DIR=os.path.join(scratch, "evidence"), VERIF_REPLAY_DIR=os.path.join(scratch, "replays"), VERIF_SEED=seed)
+        import hashlib
+        builddir = os.path.join("/verif", ".build-" + hashlib.sha1(wt.encode()).hexdigest()[:10])
+        for p in props:
+            t0 = time.time()
+            r = subprocess.run(["/verif/check", "run", p, "--tier", tier], capture_output=True, text=True, env=env)
+            out = r.stdout
+            sig = re.search(r"signature=(\S+)", out)
+            det = re.search(r"detail: (.*)", out)
+            summ = re.search(r"SUMMARY.*", out)
+            status = {0: "MISSED", 1: "DETECTED"}.get(r.returncode, "ERROR(rc=%d)" % r.returncode)
+            print("%s %s %s wall=%.0fs %s" % (p, status, sig.group(1) if sig else "", time.time()-t0, (det.group(1)[:300] if det else "")))
+            if r.returncode not in (0, 1):
+                print(out[-1500:])
+            elif r.returncode == 0 and summ:
+                print("   ", summ.group(0)[:300])
+    finally:
+        subprocess.run(["git", "-C", "/repo", "worktree", "remove", "--force", wt])
+        subprocess.run(["git", "-C", "/repo", "worktree", "prune"])
+        shutil.rmtree(scratch, ignore_errors=True)
+        if builddir:
+            shutil.rmtree(builddir, ignore_errors=True)
+
 
 if __name__ == "__main__":
     main()
